@@ -33,14 +33,23 @@ for m in sorted((V / "seeded").glob("*/meta.json")):
     d = json.loads(m.read_text())
     out = d.get("outcome")
     if isinstance(out, list):
-        out = "; ".join(o for o in out if o.startswith(("VIOLATION", "check")))[:260]
+        # compact: "discharged 0/17, mismatches 893, violations 680" from the `check …` summary line(s)
+        bits = []
+        for o in out:
+            mm = re.search(r"check (C\d+) .*obligations=(\d+) discharged=(\d+).*mismatches=(\d+) violations=(\d+)", o)
+            if mm:
+                bits.append(f"{mm.group(1)}: proofs {mm.group(3)}/{mm.group(2)}, model≠code on {mm.group(4)} cases, oracle violations {mm.group(5)}")
+        nof = any("no-failing-input-found" in o for o in out if o.startswith("VIOLATION"))
+        out = ("; ".join(bits) or "; ".join(o for o in out if o.startswith(("VIOLATION", "check")))[:200]) + (" (no failing input)" if nof and not d.get("with_failing_input") else "")
+    if d.get("history"):
+        out = str(out) + f" — first run: {str(d['history'][0].get('earlier_outcome',''))[:120]}"
     if "detected" in d:
         caught = "yes, failing input" if d.get("with_failing_input") else ("yes, no-failing-input-found" if d["detected"] else "**no**")
     elif "expected" in d:
         caught = "(negative control: no alarm expected)"
     else:
         caught = "yes, failing input"
-    rows.append(f"| {d['id']} | {d['property']} | {d['change']} | {d.get('needs_to_manifest', d.get('expected',''))} | {caught} | {str(out)[:260]} |")
+    rows.append(f"| {d['id']} | {d['property']} | {d['change']} | {d.get('needs_to_manifest', d.get('expected',''))} | {caught} | {str(out)[:420]} |")
 seeded_table = "\n".join(rows)
 
 text = text.replace("<!--FIXED_TABLE-->", fixed_table).replace("<!--KNOWN_TABLE-->", known_table).replace("<!--SEEDED_TABLE-->", seeded_table).replace("<!--HARMLESS_TABLE-->", harmless_table)
